@@ -99,6 +99,55 @@ def step(trie, ev, n, exc):
     return "ok"
 
 
+def do_reject(trie, db, ev, n, ctx):
+    """C18: perform the ill-formed call; returns (verdict, detail)"""
+    from . import badargs as ba
+
+    mod, br, exc, rz = ctx
+    bad = ba.pick(ba.NOT_BYTES, n)
+    e, arg = ev["entry"], ev["arg"]
+    key = ba.pick([b"\x00", b"\x01", b"\x00\x01", b"\x80\x00\x00", b"\xff"], n)
+    try:
+        if e == "get":
+            trie.get(bad)
+        elif e == "exists":
+            trie.exists(bad)
+        elif e == "getitem":
+            trie[bad]
+        elif e == "contains":
+            bad in trie
+        elif e == "delete":
+            trie.delete(bad)
+        elif e == "delitem":
+            del trie[bad]
+        elif e == "delete_subtrie":
+            trie.delete_subtrie(bad)
+        elif e in ("set", "setitem"):
+            k, v = (bad, b"v") if arg == "key" else (key, bad)
+            if e == "set":
+                trie.set(k, v)
+            else:
+                trie[k] = v
+        elif e == "constructor":
+            mod.BinaryTrie(db, bad)
+        elif e == "check_if_branch_exist":
+            br.check_if_branch_exist(db, trie.root_hash, bad)
+        elif e == "get_branch":
+            br.get_branch(db, trie.root_hash, bad)
+        elif e == "get_witness_for_key_prefix":
+            br.get_witness_for_key_prefix(db, trie.root_hash, bad)
+        elif e == "if_branch_valid":
+            branch = tuple(db.values())[:4] or (b"\x02x",)
+            br.if_branch_valid(branch, trie.root_hash, bad, b"claimed")
+        else:
+            return "harness-unknown-entry", e
+    except Exception as x:  # noqa
+        if ba.exc_matches(x, ev["exc"], exc):
+            return "rejected", type(x).__name__
+        return "wrongexc", type(x).__name__ + ": " + str(x)[:100]
+    return "accepted", None
+
+
 def read_table(trie, look, n):
     t = {}
     for i, (k, _) in enumerate(look):
@@ -117,6 +166,12 @@ def want_table(look):
 
 
 def replay_line(obj, ctx, opts):
+    from .common import c18_relabel
+
+    return c18_relabel(obj, replay_one(obj, ctx, opts), lambda o: replay_one(o, ctx, opts))
+
+
+def replay_one(obj, ctx, opts):
     mod, branches, exc, rz = ctx
     h, st = obj["h"], obj["st"]
     out = []
@@ -127,6 +182,17 @@ def replay_line(obj, ctx, opts):
         if is_last:
             before_db, before_root = dict(db), trie.root_hash
             before_look = read_table(trie, st["look"], idx)
+        if ev["a"] == "reject":
+            b_db, b_root = dict(db), trie.root_hash
+            verdict, detail = do_reject(trie, db, ev, idx, ctx)
+            what = {"entry": ev["entry"], "arg": ev["arg"], "detail": detail}
+            if verdict == "accepted":
+                out.append(("C18", "ill-formed-call-not-refused", what))
+            elif verdict != "rejected":
+                out.append(("C18", "ill-formed-call-refused-with-the-wrong-exception", dict(what, expected=ev["exc"])))
+            if db != b_db or trie.root_hash != b_root:
+                out.append(("C18", "refused-call-changed-state", what))
+            continue
         res = step(trie, ev, idx, exc)
         if not is_last:
             continue
@@ -321,6 +387,8 @@ def stats(obj, ctx):
     h, st = obj["h"], obj["st"]
     if h:
         tags.append("last:" + h[-1]["a"] + ("" if h[-1]["ok"] else "-refused"))
+    if any(e["a"] == "reject" for e in h[:-1]):
+        tags.append("rejected-call-in-mid-history")
 
     def kinds(j, acc):
         if j:
